@@ -277,7 +277,10 @@ class StateMatrix:
         sm.kvalue = kwargs.pop("kvalue", self.kvalue)
         sm.tvalue = kwargs.pop("tvalue", self.tvalue)
         sm.options = {**self.options, **kwargs}
-        sm.system = self.system
+        # own copy of the linked "system" collection
+        sm.system = self.system.copy()
+        coll._linked = set()
+        coll.link(sm.system)
         return sm
 
     def resize(self, nstate):
